@@ -116,8 +116,10 @@ class Check:
               level=self.level, coverage=cov, assumptions=self.assumptions,
               wall_s=round(time.time() - self.t0, 2),
               violations=len(self.violations))
-    os.makedirs(os.path.join(ROOT, 'evidence'), exist_ok=True)
-    with open(os.path.join(ROOT, 'evidence', '%s.json' % self.pid), 'w') as fh:
+    # extension checks (X..: behaviour beyond the listed properties) keep their evidence apart
+    evdir = 'evidence' if not self.pid.startswith('X') else 'evidence_extra'
+    os.makedirs(os.path.join(ROOT, evdir), exist_ok=True)
+    with open(os.path.join(ROOT, evdir, '%s.json' % self.pid), 'w') as fh:
       json.dump(ev, fh, indent=1, default=str)
     self.log('done: states=%d traces=%d nontrivial=%d violations=%d known=%d wall=%.1fs'
              % (self.states, self.traces, self.nontrivial, len(self.violations),
